@@ -18,7 +18,8 @@ PROPS = {
                                                   per_kind_quick=1, per_kind_thorough=6, quick=40, thorough=400)],
                 rule="one evaluation = one seeded history with a clean restart after every call (or at random positions), from an empty directory or a committed schema-v1 golden file; distinct = distinct canonical event-log hash; non-trivial = executed at least one call",
                 assumptions=["restart is clean (no crash); crash points are C04's", "golden files were written by the pinned tree"]),
-    "C04": dict(level="fault_enumeration", stages=[dict(kind="mod", module="crashfs", db=True, cache=False, per_kind_quick=2, per_kind_thorough=24, quick=150, thorough=1500)],
+    "C04": dict(level="fault_enumeration", stages=[dict(kind="mod", module="crashfs", db=True, cache=False, per_kind_quick=2, per_kind_thorough=24, quick=150, thorough=1500),
+                                                   dict(kind="sim", name="conc-disk", engine="dbworld-conc-disk", quick=15, thorough=300)],
                 rule="one evaluation = one real run of a child process under ptrace: for each sampled (pre-history, mutating operation) of each kind (database creation, create secret, new version, activate, delete-version, delete) the operation's file-system system calls are recorded, then EVERY call is (a) made to fail with each applicable errno and (b) the process is killed on entry to it and to its successor; afterwards the file is reopened by a fresh process. distinct = distinct (operation, system-call position, fault); non-trivial = the fault was confirmed from strace's own output to have landed on the intended call inside the operation",
                 assumptions=["kills land on system-call boundaries (ptrace cannot stop inside a call; partial writes are covered by the trace invariant that only the temporary file is ever written)", "power loss with unsynced data is covered by the invariant that fsync of the temporary file precedes the rename", "tmpfs as the file system"]),
     "C05": dict(level="exploration", stages=[dict(kind="sim", quick=25, thorough=600),
